@@ -269,7 +269,7 @@ fn one(t: &mut Tape, src: &str, corpus: &Corpus) -> String {
             if let Some(i) = pick_idx(t, &flat, |f| matches!(f.node.kind(), K::Str | K::Int | K::Float | K::Numeric)) {
                 const LITS: &[&str] = &[
                     "\"a\nb\"", "\"a\\n\\\"b\"", "\"\n  x\n\"", "0x1F", "0b101", "0o17", "1e3", "1.5e-2", "2.5em", "10%", "3fr", "45deg",
-                    "1.0", "\"\"", "\" lead\"", "\"a\n\n  b\n c\"", "1pt", "100000000000",
+                    "1.0", "\"\"", "\" lead\"", "\"a\n\n  b\n c\"", "1pt", "1000",
                 ];
                 return splice(src, flat[i].start, flat[i].end, t.pick(LITS));
             }
